@@ -444,6 +444,12 @@ def run(ctx) -> None:
                 scripts.append([["setting", len(scripts) % 61], ["apply"], setter, ["apply"], ["refresh"], ["setting", (len(scripts) * 7) % 61], setter, ["apply"], ["refresh"]])
                 scripts.append([["breezeless", True], ["apply"], setter, ["apply"], ["refresh"], ["remote", 0x0042, 1], ["refresh"], ["remote", 0x0018, 1], ["refresh"]])
             scripts.append([["away", True], ["breezeless", True], ["apply"], ["refresh"], ["away", True], ["apply"], ["refresh"], ["breezeless", False], ["apply"], ["refresh"]])
+            # a mode switched on through the library is switched off at the unit (remote control): refresh follows the unit, and the
+            # next apply - no setter was called - writes nothing
+            for setter, pid, off in ((["away", True], 0x0042, 0), (["breezeless", True], 0x0018, 0), (["mild", True], 0x0043, 0), (["ieco", True], 0x00E3, 0),
+                                     (["ud", 50], 0x0009, 0), (["rate", 1], 0x0048, 0)):
+                scripts.append([setter, ["apply"], ["refresh"], ["remote", pid, off], ["refresh"], ["apply"], ["refresh"], ["setting", 7], ["apply"], ["refresh"]])
+                scripts.append([setter, ["apply"], ["remote", pid, off], ["refresh"], ["refresh"], ["apply"]])
             for s in scripts:
                 n += 1
                 if ctx.mine(n):
